@@ -306,3 +306,16 @@ Proof.
   - intros j Hj Hd Hn. assert (E : j = 0%Z \/ j = 1%Z \/ j = 2%Z) by lia.
     destruct E as [ -> | [ -> | -> ] ]; [exfalso; apply Hn; cbn; auto|exfalso; apply Hn; cbn; auto|cbn in Hd; lra].
 Qed.
+
+(* ---- layout independence: the data are paired with the source coordinates by logical C-order flattening (row after row)
+   of both; the memory layout (Fortran order, transposed or strided views) is not an input.  Every value stays with the
+   coordinate of its own (row, column).  Tied to the code by running each non-C-contiguous case also on C-contiguous
+   copies (harness key C04.layout_independence) and by the correspondence, whose model columns are the C-order flattening. *)
+Theorem C04_ravel_keeps_locations : forall (A B : Type) (coords : list (list A)) (data : list (list B)),
+  Forall2 (fun x y => length x = length y) coords data ->
+  combine (concat coords) (concat data) = concat (map2 (@combine A B) coords data).
+Proof. exact (@ravel_keeps_locations). Qed.
+Print Assumptions C04_ravel_keeps_locations.
+Example C04_ravel_ex : combine (concat [[1%Z; 2%Z]; [3%Z; 4%Z]]) (concat [[true; false]; [false; true]]) =
+  [(1%Z, true); (2%Z, false); (3%Z, false); (4%Z, true)].
+Proof. reflexivity. Qed.
